@@ -64,6 +64,7 @@ type Thread struct {
 	spins    int // consecutive default-branch takes of the SAME select with nobody else running in between
 	spinSite uintptr
 	waiting  int // consecutive scheduling decisions at which it could run but was not picked
+	free     bool // a real goroutine of the free-running mode
 	foreign  bool // parked for good on a goroutine that is not its own (see abortHere)
 	nameH    uint64
 	hist     uint64 // rolling hash of the results of this thread's operations: determines its local state
@@ -976,8 +977,13 @@ func Go(f func()) { GoNamed("", f) }
 func GoNamed(name string, f func()) *Thread {
 	s := active()
 	if s == nil {
-		go f()
-		return nil
+		// free-running mode (the separate -race pass): a real goroutine
+		t := &Thread{Name: name, exited: make(chan struct{}), free: true}
+		go func() {
+			defer close(t.exited)
+			f()
+		}()
+		return t
 	}
 	s.mu.Lock()
 	par := s.running
@@ -995,7 +1001,13 @@ func GoNamed(name string, f func()) *Thread {
 // Join blocks the running thread until t has finished (harness threads only).
 func Join(t *Thread) {
 	s := active()
-	if s == nil || t == nil {
+	if t == nil {
+		return
+	}
+	if s == nil {
+		if t.free {
+			<-t.exited
+		}
 		return
 	}
 	s.point(&op{kind: opJoin, label: "join " + t.Name, ready: func() bool { return t.finished }}) // called with mu held
@@ -1075,7 +1087,18 @@ func Chan[T any](n int) chan T { return make(chan T, n) }
 func WaitCond(label string, ready func() bool, timeout time.Duration) bool {
 	s := active()
 	if s == nil {
-		panic("vch.WaitCond needs a scheduler")
+		// free-running mode: poll (the timeout is real but capped, the -race pass has no use for long waits)
+		if timeout <= 0 || timeout > 2*time.Second {
+			timeout = 2 * time.Second
+		}
+		end := time.Now().Add(timeout)
+		for !ready() {
+			if time.Now().After(end) {
+				return true
+			}
+			time.Sleep(50 * time.Microsecond)
+		}
+		return false
 	}
 	var tc *RecvC[time.Time]
 	o := &op{kind: opSelect, chosen: -1, label: label}
@@ -1097,14 +1120,47 @@ func WaitCond(label string, ready func() bool, timeout time.Duration) bool {
 // HTTPShutdown replaces srv.Shutdown(ctx) in instrumented code.
 func HTTPShutdown(srv *http.Server, ctx context.Context) error {
 	s := active()
-	if s == nil || s.ShutdownWait == nil {
+	if s == nil {
+		gmu.Lock()
+		f := freeShutdownWait
+		gmu.Unlock()
+		if f != nil {
+			return f(ctx)
+		}
+		return srv.Shutdown(ctx)
+	}
+	if s.ShutdownWait == nil {
 		return srv.Shutdown(ctx)
 	}
 	return s.ShutdownWait(ctx)
 }
 
+var freeShutdownWait func(ctx context.Context) error
+
+// SetShutdownWait installs the stand-in for http.Server.Shutdown (on the active scheduler,
+// or for the free-running mode).
+func SetShutdownWait(f func(ctx context.Context) error) {
+	if s := active(); s != nil {
+		s.ShutdownWait = f
+		return
+	}
+	gmu.Lock()
+	freeShutdownWait = f
+	gmu.Unlock()
+}
+
 // Finished reports whether a thread has returned (for ready functions: called with the scheduler lock held).
-func (t *Thread) Finished() bool { return t.finished }
+func (t *Thread) Finished() bool {
+	if t.free {
+		select {
+		case <-t.exited:
+			return true
+		default:
+			return false
+		}
+	}
+	return t.finished
+}
 
 // Current returns the active scheduler (nil in pass-through mode).
 func Current() *Scheduler { return active() }
